@@ -34,7 +34,7 @@ META = {
 KFS = ["KF_C20_EmptyVolume", "KF_C20_ReportedPreexisting"]
 
 
-def drive(binp, args, timeout=3000):
+def drive(binp, args, timeout=1500):
     p = c.run([binp] + args, timeout=timeout, check=False)
     if p.returncode != 0:
         raise c.ToolError("driver failed: " + (p.stdout or "")[-3000:])
